@@ -146,6 +146,11 @@ type World struct {
 	// routes of OTHER denominations, which must be refused.
 	HypSynth []byte
 	HypHook  []byte
+	// HypIGP maps a denomination to the id of an interchain gas paymaster (a post-dispatch hook
+	// that CHARGES the sender: gas limit x gas price 1 x exchange rate 1 = `gas_limit` base units
+	// of that denomination, for every domain of HypDomains). It is never the mailbox's default
+	// or required hook: only a payload that names it as custom hook meets it.
+	HypIGP map[string][]byte
 
 	AttesterKey *ecdsa.PrivateKey
 }
@@ -508,8 +513,37 @@ func (w *World) setupHyperlane() error {
 			}
 		}
 	}
+	// Interchain gas paymasters, created last so that the identifiers of everything above stay
+	// what they were.
+	w.HypIGP = map[string][]byte{}
+	for _, denom := range IGPDenoms {
+		res, err = w.run(ctx, &pdtypes.MsgCreateIgp{Owner: owner, Denom: denom})
+		if err != nil {
+			return fmt.Errorf("creating the gas paymaster for %s: %w", denom, err)
+		}
+		var igpResp pdtypes.MsgCreateIgpResponse
+		if err := unpackResp(res, &igpResp); err != nil {
+			return err
+		}
+		w.HypIGP[denom] = igpResp.Id.Bytes()
+		for _, dom := range HypDomains {
+			if _, err = w.run(ctx, &pdtypes.MsgSetDestinationGasConfig{
+				Owner: owner, IgpId: igpResp.Id,
+				DestinationGasConfig: &pdtypes.DestinationGasConfig{
+					RemoteDomain: dom,
+					GasOracle:    &pdtypes.GasOracle{TokenExchangeRate: pdtypes.TokenExchangeRateScale, GasPrice: sdkmath.OneInt()},
+					GasOverhead:  sdkmath.ZeroInt(),
+				},
+			}); err != nil {
+				return fmt.Errorf("gas config of the paymaster for %s: %w", denom, err)
+			}
+		}
+	}
 	return nil
 }
+
+// IGPDenoms are the denominations that have an interchain gas paymaster.
+var IGPDenoms = []string{Ufoo, Uusdc}
 
 // HypRouter enrolls or unenrolls the remote router of a collateral token for a domain, through
 // the warp module's own messages, signed by the token owner.
